@@ -61,12 +61,30 @@ def run_job(job, tier):
     out = worst or r
     out["per_binding"] = per
     out["bindings_proved"] = sum(1 for x in per if x["status"] == "proved")
+    # shape mode: operator obligations and output shapes for ALL bindings (z3 over Int dims)
+    if out["status"] not in ("export_failed", "reference_failed"):
+        from .. import shapecheck
+
+        try:
+            sr = shapecheck.analyze_shapes(p, timeout_ms=4000 if tier == "quick" else 30000, check_annotations=False)
+        except Exception as e:
+            sr = {"status": "harness_error", "reason": f"{type(e).__name__}: {e}", "findings": [], "stats": {}}
+        out["shape_mode"] = {"status": sr["status"], "reason": sr.get("reason"), "stats": sr.get("stats")}
+        for f in sr.get("findings", []):
+            ok, info = shapecheck.replay_finding(p, sr["model"], f)
+            if ok:
+                out["status"] = "violation"
+                out["kind"] = "shape:" + f["kind"]
+                out["binding"] = f.get("binding")
+                out["witness"] = {"why": f["text"], **{k: v for k, v in info.items() if k != "shapes"}}
+                break
+            out["shape_mode"].setdefault("not_reproduced", []).append(f["text"][:120])
     return out
 
 
 ASSUMPTIONS = list(c01.ASSUMPTIONS) + [
     "the model is exported ONCE per binding request with named dimensions; the same symbolic model is then evaluated (value mode) with the symbols bound to each lattice point and compared with the JAX callable traced at that size",
-    "bindings are a lattice (size 1, equal, unequal, primes); the `all bindings` quantifier is decided only for the lattice points",
+    "value equivalence is decided at lattice bindings (size 1, equal, unequal, primes); operator shape obligations and output shapes are decided by z3 for ALL bindings in shape mode (dims as unbounded integers >= 1), with JAX dimension expressions parsed independently with Python floor semantics",
 ]
 
 
@@ -80,6 +98,12 @@ def main(tier):
     cov = c01.evidence_coverage(results, tier)
     cov["lattice"] = LATTICE_Q if tier == "quick" else LATTICE_T
     cov["bindings_proved_total"] = sum(r.get("bindings_proved", 0) for r in results)
+    sm = [r.get("shape_mode") for r in results if r.get("shape_mode")]
+    agg = {}
+    for x in sm:
+        for k, v in (x.get("stats") or {}).items():
+            agg[k] = round(agg.get(k, 0) + v, 3)
+    cov["shape_mode"] = {"programs": len(sm), "proved_for_all_bindings": sum(1 for x in sm if x["status"] == "proved"), "not_encodable": sum(1 for x in sm if x["status"] == "not_encodable"), "queries": agg, "quantifier": "all B,N >= 1 (< 2^31), unbounded z3 integers"}
     cov["worker_crashes"] = crashed
     return common.finish(PROP, tier, t0, level="translation_validation", coverage=cov, assumptions=ASSUMPTIONS, violations=violations, decided=cov["programs"])
 
